@@ -85,10 +85,43 @@ def encode_traces(facts):
         env[pn[-1]] = ('<default prefix>', '<default suffix>')
         it.val(b['body'], env)
         out[('table', n)] = [(nm,) + keep(args) for nm, args in it.calls]
+    for fn in ('encode_key_path', 'encode_key_path_ref'):
+        b = facts.body('toml_edit::encode::' + fn)
+        pn = [p['name'] for p in b['params'] if p.get('k') == 'p_bind']
+        for n in (1, 2, 3):
+            keys = tuple(('struct', 'toml_edit::key::Key', {'leaf_decor': ('leaf', i), 'dotted_decor': ('dotted', i), 'key': ('k', i), 'repr': ('opaque',)}) for i in range(n))
+            it = RecInterp(Evaluator(facts), {'prefix_encode', 'suffix_encode', 'key_sep'}, {'encode_key'})
+            env = {pn[0]: keys, '@assign': {}, '@calls': []}
+            for e in pn[1:]:
+                env[e] = ('opaque',)
+            env[pn[-1]] = ('<default prefix>', '<default suffix>')
+            it.val(b['body'], env)
+            evs = []
+            for nm, recv, args in it.trace:
+                if nm == 'encode_key':
+                    a0 = args[0] if args else None
+                    evs.append((nm, a0[2].get('key') if isinstance(a0, tuple) and len(a0) == 3 and a0[0] == 'struct' else a0))
+                elif nm == 'key_sep':
+                    evs.append((nm,))
+                else:
+                    evs.append((nm, recv) + tuple(a for a in args if isinstance(a, str)))
+            out[(fn, n)] = evs
     return out
 
 
 def expected_encode_trace(kind, n, tc=False):
+    if kind in ('encode_key_path', 'encode_key_path_ref'):
+        # `a . b .c`: the decor of the whole path is the leaf decor of the last key; between two segments the earlier one's dotted suffix, the dot, the
+        # later one's dotted prefix
+        ev = []
+        for i in range(n):
+            if i == 0:
+                ev.append(('prefix_encode', ('leaf', n - 1), '<default prefix>'))
+            else:
+                ev += [('key_sep',), ('prefix_encode', ('dotted', i), '')]
+            ev.append(('encode_key', ('k', i)))
+            ev.append(('suffix_encode', ('leaf', n - 1), '<default suffix>') if i == n - 1 else ('suffix_encode', ('dotted', i), ''))
+        return ev
     """what toml_edit prints for a programmatically built container: `[e0, e1, e2]` / `{ k0 = e0, k1 = e1 }`"""
     if kind == 'array':
         ev = [('prefix_encode', '<default prefix>'), ('open_array',)]
@@ -134,6 +167,11 @@ def array_separators(rep, R, facts):
                   (f' (array of {bad_tc[0]}: {show(("array", bad_tc[0], True))})' if bad_tc else ''), loc)
         tb = facts.body('toml_edit::encode::encode_table')
         bad_t = [n for n in range(4) if tr[('table', n)] != expected_encode_trace('table', n)]
+        for fn in ('encode_key_path', 'encode_key_path_ref'):
+            bad_k = [n for n in (1, 2, 3) if tr[(fn, n)] != expected_encode_trace(fn, n)]
+            rep.check(R, f'{fn}|segments-and-dots', not bad_k, 'writer events of key paths of 1..3 segments: path prefix, key, (dotted suffix, dot, dotted prefix, key)*, path suffix',
+                      f'`{fn}` does not write a dotted key as `prefix key (suffix . prefix key)* suffix`' + (f' (path of {bad_k[0]}: {show((fn, bad_k[0]))})' if bad_k else '') +
+                      ': whitespace around the dots moves or is lost', facts.loc(facts.body('toml_edit::encode::' + fn)))
         rep.check(R, 'encode_table|pairs-and-separators', not bad_t, 'writer events of inline tables of 0..3 pairs: open, preamble, (sep?) key = value .., close',
                   'an inline table is not written as `{ k = v, k = v }`' + (f' (table of {bad_t[0]}: {show(("table", bad_t[0]))})' if bad_t else ''), facts.loc(tb))
         return
